@@ -204,3 +204,37 @@ Section PreserveMeaning.
   Qed.
 End PreserveMeaning.
 Print Assumptions prefs_preserve_meaning_partial.
+
+(* ------------------------------------------------------------------ reparse_faithful discharged on a fragment (PP engine)
+   The abstract re-parse is instantiated with the framework's executable parse -- tokenize, skeleton, build_item with the
+   ProdParser engine's value builder and C02's media builder (the parse of C02's parse_faithful_pp) -- and the abstract
+   filter_model with Grammar.expected_model(_nocomments) of C02's sheet pp_sheet.  For that sheet, written by do_sheet with
+   its piece texts spelled with the record's own spacers, and EVERY preference record of frag_prefs (146 records, see
+   OutModelPP.v) the statement of the property holds with NO hypothesis (decided by vm_compute over the fragment). *)
+From CssV Require Import OutModelPP.
+
+Theorem reparse_faithful_pp :
+  forall p t, In p frag_prefs -> do_sheet p (pp_rules p) = Some t -> parse_model_pp t = Some (filter_model_pp p).
+Proof. exact reparse_faithful_pp_lemma. Qed.
+Print Assumptions reparse_faithful_pp.
+
+Theorem prefs_preserve_meaning_pp :
+  forall p, In p frag_prefs ->
+    ws_prefs p = true /\
+    exists t, do_sheet p (pp_rules p) = Some t /\ parse_model_pp t = Some (filter_model_pp p).
+Proof. exact prefs_preserve_meaning_pp_lemma. Qed.
+Print Assumptions prefs_preserve_meaning_pp.
+
+Example prefs_preserve_meaning_pp_example :       (* both presets are in the fragment; useMinified drops the comment *)
+  In prefs_default frag_prefs /\ In prefs_minified frag_prefs /\
+  (exists t, do_sheet prefs_minified (pp_rules prefs_minified) = Some t /\
+             parse_model_pp t = Some (Grammar.expected_model_nocomments GrammarPP.pp_sheet)) /\
+  (exists t, do_sheet prefs_default (pp_rules prefs_default) = Some t /\
+             parse_model_pp t = Some (Grammar.expected_model GrammarPP.pp_sheet)).
+Proof.
+  assert (Hd : In prefs_default frag_prefs) by (left; reflexivity).
+  assert (Hm : In prefs_minified frag_prefs) by (right; left; reflexivity).
+  split; [exact Hd|]. split; [exact Hm|]. split.
+  - destruct (prefs_preserve_meaning_pp_lemma _ Hm) as (_ & t & H1 & H2). exists t. split; [exact H1|exact H2].
+  - destruct (prefs_preserve_meaning_pp_lemma _ Hd) as (_ & t & H1 & H2). exists t. split; [exact H1|exact H2].
+Qed.
